@@ -1,4 +1,5 @@
 mod codec;
+mod ctl;
 mod j;
 mod util;
 mod vsign;
@@ -25,6 +26,11 @@ fn main() {
         ("replay", "C13") => { vsign::replay_graph(&a.rest[0], false); 0 }
         ("replay", "C12") => { vsign::replay_graph(&a.rest[0], true); 0 }
         ("replay", "C14") => { vsign::replay_bus_graph(&a.rest[0]); 0 }
+        ("record", "C09") => ctl::record_c09(&a),
+        ("record", "C10") => ctl::record_c10(&a),
+        ("record", "C11") => ctl::record_c11(&a),
+        ("record", "CTLSCRIPTS") => ctl::record_from_scripts(&a.rest[0], &a, &a.rest[1]),
+        ("replay", "CTL") => { ctl::replay_scripts(&a.rest[0]); 0 }
         ("replay", "C01") => { codec::replay_c01(&a.rest[0]); 0 }
         ("replay", "C03") => { codec::replay_c03(&a.rest[0]); 0 }
         ("replay", "C04") => { codec::replay_c04(&a.rest[0]); 0 }
